@@ -141,6 +141,11 @@ func clientAttack(rep int) *hx.Record {
 
 	id := atomicNext()
 	users := []string{fmt.Sprintf("c19-%s-cl%d-a", runNonce, id), fmt.Sprintf("c19-%s-cl%d-b", runNonce, id)}
+	if k := rep % (nameSchemes + 1); k != 0 { // user IDs that are look-alikes of one another (names.go)
+		base := fmt.Sprintf("c19-%s-cl%d-user@example.com", runNonce, id)
+		users = []string{similarName(base, k, 1), similarName(base, k, 2)}
+	}
+
 
 	var cl []*vcwallet.Client
 
